@@ -171,6 +171,18 @@ CLAIMS = {
    note=COMMON_NOTE + "POSIX fcntl-lock / namespace semantics are assumptions; --force and background mode are not modelled; outcomes count only if they reproduce on an immediate re-run. Found F5 (fixed). Observations outside the statement: the pid file is unlinked after the lock is released (a daemon started during another's shutdown tail can lose its pid file); a SIGTERM between the got_terminate test and accept() is seen only at the next connection.",
    technique="Lean 4 invariant proofs over a transition system with programs regenerated from the C source + strace-scheduled runs of the real binary",
    ref="5/C15"),
+
+ "C17": dict(
+   text="Proof. 17 theorems (Props/C17.lean) over a model whose comparators, loop fragments (membership walk, sorted insert, scan loop with its errno dispatch and restart), one pass of xgetgrent/xgetpwnam, "
+        "the mtime test, the swap section and max_inits are K-translated from gids.c / xgetgr.c / xgetpw.c every run: isMember(build g p) u gid <=> some entry with that gid lists a name the user "
+        "database maps to u (u not the sentinel), for every database; per-uid lists strictly increasing; lookup errors only under-approximate (fail closed); any number of ERANGE restarts yields the "
+        "clean scan's map, the max_inits-th gives up; a failed build keeps the old map and load time; a successful refresh with mtime > last load installs build(current databases); the scan is skipped "
+        "only if not newer; in every interleaving of lookups, SIGHUPs, edits and refresh micro-steps each lookup is answered from one complete map (old or new); lock certificates for "
+        "gids_is_member / gids_update / _gids_map_update. Tie: real gids.c/hash.c/xgetgr.c/xgetpw.c with scripted getgrent_r/getpwnam_r/stat/time (duplicates, unknown users, sentinel uid, "
+        "empty/huge groups, forced ERANGE, hash collisions) ~1.5k scenarios vs model, python oracle from the statement.",
+   note=COMMON_NOTE + "hash.c is tied only by correspondence here (C05 proves the table refines a set); no real threads or live NSS; allocation failures not exercised. Observations: double destroy of the lookup buffers if the second gettimeofday of _gids_map_create fails (unreachable without a failing gettimeofday); a SIGHUP during a running refresh leaves a second refresh chain.",
+   technique="Lean 4 theorems (fold/induction over databases, interleaving invariant) on kernels and loop fragments translated from the C source each run + differential correspondence with scripted NSS",
+   ref="5/C17"),
 }
 NA_REASON = "check not built yet (work in progress, see DESIGN.md section 7 staging)"
 
